@@ -84,7 +84,7 @@ def run(ck: Check):
     ck.rule(
         f"exact p-value: every (n,m) with n+m <= {N} and every attainable statistic: brute-force enumeration of all interleavings vs big-int DP vs the Gallina DP; "
         "KSTest / IncrementalKSTest on generated sample pairs (continuous, heavily tied, integer, shifted; sizes 1..60; windows 1..12): statistic vs sup|F_ref - F_test| recomputed, "
-        "p-value vs the exact fraction (1e-9 rel; within 1e-3 when the exact value is 1), incremental vs batch at every step incl. sizes > 10 000; non-trivial = p-value < 1"
+        "p-value vs the exact fraction (1e-9 rel; within 1e-3 when the exact value is 1), incremental vs batch at every step incl. sizes > 10 000, decimal-grid values replayed with ties and epoch-sized magnitudes half a unit apart (order lost in single precision), and re-fit without reset across the 10 000 boundary in both directions; non-trivial = p-value < 1"
     )
     enum_cases = []
     for n in range(1, N):
@@ -142,6 +142,17 @@ def run(ck: Check):
             w = n = rng.choice([5, 7, 13])
             ref = [float(2 * i + 1) for i in range(n)]
             stream = [float(2 * i) for i in range(n + 3)]
+        elif it % 7 in (1, 2):
+            # values whose ORDER against the reference is lost in single precision: a decimal grid replayed
+            # with ties, or epoch-sized magnitudes half a unit apart
+            if it % 7 == 1:
+                grid = [k / 10 for k in range(1, 40)]
+                ref = [rng.choice(grid) for _ in range(n)]
+                stream = [rng.choice(grid + ref) for _ in range(len(stream))]
+            else:
+                base = 1.7e9
+                ref = [base + rng.randrange(0, 40) * 0.5 for _ in range(n)]
+                stream = [base + rng.randrange(0, 40) * 0.5 + rng.choice([0.0, 0.25]) for _ in range(len(stream))]
         d = IncrementalKSTest(window_size=w)
         d.fit(X=np.array(ref))
         ok = True
@@ -189,6 +200,29 @@ def run(ck: Check):
                         break
         except Exception as e:  # noqa: BLE001
             ck.violation(dict(clause="raises", detector="IncrementalKSTest", error=type(e).__name__, regime="asymptotic"), dict(what="update failed on a valid input", n_ref=nref, window_size=w, error=repr(e)))
+    # (5) re-fit without reset (fit replaces the reference, keeps the window): every result must be the batch test
+    #     on (current reference, last window), across the 10 000 boundary in both directions
+    plans = [(6, 9, 4), (9, 6, 3), (5, 10001, 3), (10001, 5, 3)] + ([(40, 10050, 8), (10050, 40, 8)] if thorough else [])
+    for n1, n2, w in plans:
+        refs = [[rng.gauss(0, 1) for _ in range(n1)], [rng.gauss(0.2, 1) for _ in range(n2)]]
+        stream = [rng.gauss(0.1, 1) for _ in range(2 * w + 4)]
+        d = IncrementalKSTest(window_size=w)
+        ck.case(dict(kind="refit", n1=n1, n2=n2, window=w), nontrivial=True, key=f"refit{n1},{n2},{w},{stream[:2]}")
+        try:
+            cur = None
+            for t, v in enumerate(stream):
+                if t == 0 or t == w + 2:
+                    cur = refs[0 if t == 0 else 1]
+                    d.fit(X=np.array(cur))
+                r, _ = d.update(value=v)
+                if t + 1 >= w:
+                    ks.fit(X=np.array(cur))
+                    b, _ = ks.compare(X=np.array(stream[t + 1 - w : t + 1]))
+                    if r is None or not close(float(r.statistic), float(b.statistic), 1e-12, 1e-12) or not close(float(r.p_value), float(b.p_value), 1e-6, 1e-12):
+                        ck.violation(dict(clause="incremental-vs-batch", detector="IncrementalKSTest", history="refit"), dict(what="after fit() on a new reference the result is not the batch test on (current reference, last window)", sizes=(n1, n2), window_size=w, step=t, incremental=None if r is None else (float(r.statistic), float(r.p_value)), batch=(float(b.statistic), float(b.p_value))))
+                        break
+        except Exception as e:  # noqa: BLE001
+            ck.violation(dict(clause="raises", detector="IncrementalKSTest", error=type(e).__name__, history="refit"), dict(what="update failed on a valid input", sizes=(n1, n2), window_size=w, error=repr(e)))
     # model correspondence: ks_test on the same pairs (storage order irrelevant: checked separately through IKS runs)
     small = [c for c in model_cases if len(c[0]) * len(c[1]) <= 400][:200]
     exprs = [f"ks_test (A:=FloatA) {fl_list(X)} {fl_list(Y)}" for X, Y, _, _ in small]
